@@ -36,6 +36,9 @@ func init() {
 			{ID: "C04.R4", Doc: "Manager.terminate closes transport and stream buffer in the first-wins branch; Stream.Cancel sets cancel, send=EOF, terminates unless finished", Run: c04r4},
 			{ID: "C04.R5", Doc: "write errors returned by Stream methods pass through checkCancelError (blocked sends report the context's error)", Run: c04r5},
 			{ID: "C04.R6", Doc: "every blocking select in drpcmanager has a term/ctx.Done case; bare blocking operations are the reviewed, paired set", Run: c04r6},
+			{ID: "C04.S1", Doc: "the lent receive buffer is always handed back (packetBuffer.Close waits for it while Stream.Cancel holds Stream.mu)", Alias: "C01.R3"},
+			{ID: "C04.S2", Doc: "packet-buffer wake-ups: a cancelled receiver parked in Get is woken by Close", Alias: "C01.R4"},
+			{ID: "C04.S3", Doc: "cancel sets the state signals under Stream.mu", Alias: "C03.R1"},
 		},
 	})
 }
